@@ -371,6 +371,8 @@ pub struct Prog {
     /// nodes that already have an ordinary (droppable) observer each, all stabilised once, when the history
     /// starts: saves the 1 + len actions every history would otherwise spend getting there
     pub start_observed: Vec<u8>,
+    /// nodes that carry an `Incr::on_update` handler from the start (installed before `start_observed` is applied)
+    pub start_on_update: Vec<u8>,
     pub alpha: Alphabet,
 }
 
@@ -382,6 +384,7 @@ impl Prog {
             precreated: n,
             pinned: vec![],
             start_observed: vec![],
+            start_on_update: vec![],
             alpha: Alphabet::default(),
         }
     }
@@ -430,7 +433,7 @@ impl Prog {
                 j
             })
             .collect();
-        json!({"nodes": nodes, "precreated": self.precreated, "pinned": self.pinned, "start_observed": self.start_observed, "alphabet": self.alpha.to_json()})
+        json!({"nodes": nodes, "precreated": self.precreated, "pinned": self.pinned, "start_observed": self.start_observed, "start_on_update": self.start_on_update, "alphabet": self.alpha.to_json()})
     }
     pub fn from_json(j: &Json) -> Option<Prog> {
         let nodes = j
@@ -457,6 +460,11 @@ impl Prog {
                 .collect(),
             start_observed: j
                 .get("start_observed")
+                .and_then(|v| v.as_array())
+                .map(|a| a.iter().filter_map(|v| v.as_u64().map(|x| x as u8)).collect())
+                .unwrap_or_default(),
+            start_on_update: j
+                .get("start_on_update")
                 .and_then(|v| v.as_array())
                 .map(|a| a.iter().filter_map(|v| v.as_u64().map(|x| x as u8)).collect())
                 .unwrap_or_default(),
